@@ -8,6 +8,8 @@ EXTENDS LoadUniverse, Json
 
 CONSTANTS MaxLoads, KnownDev,
           PrefixIds,    \* which prefixes of LoadUniverse!Prefixes the histories start from
+          Vias,         \* how a document may be delivered: "sdl" (ParseReader / ParseFS), "types" (built in Go, Root.AddTypes)
+          TypesOnly,    \* emit only the histories with at least one load delivered as types
           WithIntro     \* also emit, after EVERY load (accepted or refused), the introspection view of the root's schema
 
 VARIABLES st, hist, npre
@@ -17,19 +19,20 @@ RECURSIVE RunPrefix(_, _, _, _)
 RunPrefix(s, docs, i, acc) ==
   IF i > Len(docs) THEN [s |-> s, hist |-> acc]
   ELSE LET r == LoadResult(s, docs[i], {}) IN
-       RunPrefix(r.s, docs, i + 1, Append(acc, [doc |-> docs[i], ok |-> r.ok, why |-> r.why, off |-> r.off, canon |-> Canon(r.s)]
+       RunPrefix(r.s, docs, i + 1, Append(acc, [doc |-> docs[i], via |-> "sdl", ok |-> r.ok, why |-> r.why, off |-> r.off, canon |-> Canon(r.s)]
                                                     @@ (IF WithIntro /\ Queryable(r.s) THEN [intro |-> Intro(r.s)] ELSE <<>>)))
 
 LInit == \E p \in PrefixIds :
            LET r == RunPrefix(EmptySchema, Prefixes[p], 1, <<>>) IN st = r.s /\ hist = r.hist /\ npre = Len(r.hist)
-Load(doc) ==
-  LET r == LoadResult(st, doc, {}) IN
+Load(doc, via) ==
+  LET r == LoadVia(st, doc, {}, via) IN
   /\ Len(hist) < npre + MaxLoads
+  /\ via = "types" => TypesEligible(doc)
   /\ UNCHANGED npre
   /\ st' = r.s
-  /\ hist' = Append(hist, [doc |-> doc, ok |-> r.ok, why |-> r.why, off |-> r.off, canon |-> Canon(r.s)]
+  /\ hist' = Append(hist, [doc |-> doc, via |-> via, ok |-> r.ok, why |-> r.why, off |-> r.off, canon |-> Canon(r.s)]
                             @@ (IF WithIntro /\ Queryable(r.s) THEN [intro |-> Intro(r.s)] ELSE <<>>))
-LNext == \E doc \in LoadDocs : Load(doc)
+LNext == \E doc \in LoadDocs, via \in Vias : Load(doc, via)
 LSpec == LInit /\ [][LNext]_lvars
 
 \* C14: a failed load leaves the observable schema unchanged
@@ -38,8 +41,8 @@ Atomic == [][\A k \in 1..Len(hist') : (k = Len(hist') /\ ~hist'[k].ok) => Canon(
 AlwaysValid == Valid(st, {})
 \* a later valid load behaves as if the failed ones had never happened: the state is a function of the successful loads only
 RECURSIVE Replay(_, _, _)
-Replay(s, h, i) == IF i > Len(h) THEN s ELSE Replay(IF h[i].ok THEN LoadResult(s, h[i].doc, {}).s ELSE s, h, i + 1)
+Replay(s, h, i) == IF i > Len(h) THEN s ELSE Replay(IF h[i].ok THEN LoadVia(s, h[i].doc, {}, h[i].via).s ELSE s, h, i + 1)
 AsIfNeverHappened == Canon(st) = Canon(Replay(EmptySchema, hist, 1))
 
-Emit == Len(hist) = npre + MaxLoads => PrintT("@@VEC " \o ToJson([hist |-> hist]))
+Emit == (Len(hist) = npre + MaxLoads /\ (TypesOnly => \E k \in DOMAIN hist : hist[k].via = "types")) => PrintT("@@VEC " \o ToJson([hist |-> hist]))
 =============================================================================
